@@ -183,8 +183,7 @@ inline void check_dispatch(
                         bad += "arity=" + std::to_string(ob.rerr->arity) + " ";
                     bool ids = true;
                     for (int k = 0; k < m.arity; ++k)
-                        if (ob.rerr->types[k] != hx::g_objs[a[k]]->dyn &&
-                            !(hx::g_ops[m.shape].has_vptr_kind()))
+                        if (ob.rerr->types[k] != hx::g_objs[a[k]]->dyn)
                             ids = false;
                     if (!ids) {
                         bad += "types=[";
